@@ -87,7 +87,7 @@ def gen_grid():
                 yield {'kind': 'epoch', 'enc': enc, 'now': c + 10**6,
                        'thr': thr}
     # builders (default thresholds: 60)
-    for ts in (1, 2, 127, 128, 255, 256, 32767, 32768, 2**31 - 1, 2**31,
+    for ts in (0, 1, 2, 127, 128, 255, 256, 32767, 32768, 2**31 - 1, 2**31,
                env.NOW0, 2**32, 2**63 - 1, 2**63):
         for d in range(-2, 3):
             t = ts + d
@@ -109,6 +109,8 @@ def gen_grid():
                 continue
             tt = {begin + d for d in range(-2, 3)} | \
                 {end + d for d in range(-2, 3)} | {(begin + end) // 2}
+            if begin == 0:
+                tt |= {end + 100, end + 1000}       # far beyond the window
             for t in sorted(x for x in tt if x >= 0):
                 for now in (t, t - 59, t - 60, t + 1000):
                     if now < 0:
